@@ -206,6 +206,11 @@ def collect(ctx, specs, traces, verd):
             if (clause, klass) in first:
                 continue   # one report per (clause, class) per program
             first.add((clause, klass))
+            if ctx.known(clause, klass) is None:
+                percls = ctx.__dict__.setdefault('_c14_percls', {})
+                percls[clause, klass] = percls.get((clause, klass), 0) + 1
+                if percls[clause, klass] > 3:   # three replay files per (clause, class) are enough
+                    continue
             it = t['items'][step - 1] if 0 < step <= len(t['items']) else {}
             ctx.violation(clause, klass, {'driver': 'c14_rec', 'mode': mode, 'src': src, 'pseed': pseed, 'label': label,
                                           'item': step, 'observed': _item_brief(it),
@@ -213,7 +218,7 @@ def collect(ctx, specs, traces, verd):
                           detail=json.dumps({'label': label, 'call': it.get('call')}))
         # coverage accounting (not a verdict)
         n = t['n']
-        ctx.extra.setdefault('_kinds', set()).update(t['kind'])
+        ctx.__dict__.setdefault('_c14_kinds', set()).update(t['kind'])
         ctx.extra['nodes'] = ctx.extra.get('nodes', 0) + n
         for it in t['items']:
             ctx.evals += 1
@@ -264,23 +269,28 @@ def run(ctx):
         'sequence-equality clauses place them by the named convention TextlessPlacement (boolean operator first, ctx last)',
         'scope=True walks are not judged (their content is C16\'s subject); asts= and send() are C15\'s',
     ]
-    ctx.model('WalkMC', 'WalkMC' if ctx.quick else 'WalkMC_thorough', required=MC_ACTIONS)
-
     from checks import c14_gen
-    c14_gen.run(ctx)
-
     specs = build_specs(ctx)
-    traces, skipped = record_all(ctx, specs)
+    traces, skipped = record_all(ctx, specs)   # (fork before any thread is started)
+    # (M) and (G) run next to (V): three independent pipelines, results are only read after all have finished
+    side = cf.ThreadPoolExecutor(max_workers=2)
+    fm = side.submit(ctx.model, 'WalkMC', 'WalkMC' if ctx.quick else 'WalkMC_thorough', MC_ACTIONS, 8)
+    fg = side.submit(c14_gen.run, ctx)
     ctx.extra['programs'] = len(traces)
     ctx.extra['skipped_inputs'] = len(skipped)
     ctx.extra['skipped_examples'] = [s[1:] for s in skipped[:5]]
     core_skipped = [s for s in skipped if s[1].startswith(('corpus', 'extra'))]
     if core_skipped:
         raise common.Machinery(f'oracle could not be built for corpus inputs: {core_skipped[:3]}')
-    verd = validate_all(ctx, traces)
+    try:
+        verd = validate_all(ctx, traces)
+    finally:
+        side.shutdown(wait=True)
+    fm.result()
+    fg.result()
     collect(ctx, specs, traces, verd)
     sample(ctx, specs, traces)
-    kinds = ctx.extra.pop('_kinds', set())
+    kinds = ctx.__dict__.get('_c14_kinds', set())
     allk = {n for n, c in vars(ast).items() if isinstance(c, type) and issubclass(c, ast.AST) and not c.__subclasses__()
             and c.__module__ in ('ast', '_ast')}
     never = {'AugLoad', 'AugStore', 'Param', 'Suite', 'ExtSlice', 'Index', 'TypeIgnore', 'FunctionType'}  # not produced by ast.parse(src) in 3.12
